@@ -126,59 +126,90 @@ pub broadcast group group_seq_views {
     lemma_subrange_skip,
 }
 
-// ---- reader views (DESIGN.md 5.1): the ghost state every Reader exposes to contracts
+// ---- reader views (DESIGN.md 5.1): the ghost state every Reader exposes to contracts.
+// A reader is a window [start, start+len) on an immutable section buffer `root`; every contract is integer
+// arithmetic over (start, len) plus equality of `root`, so composing parsers needs no sequence algebra.
 pub ghost struct RView {
-    /// the bytes still to be read
-    pub bytes: Seq<u8>,
+    /// the whole section buffer this reader is a view of
+    pub root: Seq<u8>,
+    /// position of the next byte to be read, and number of bytes left
+    pub start: nat,
+    pub len: nat,
     /// byte order
     pub be: bool,
-    /// does this reader expose positions to the verifier (false for EndianSlice: a slice is a pure sequence)
-    pub tracks: bool,
-    /// identity of the underlying section buffer, and position of bytes[0] inside it
-    pub sec: int,
-    pub pos: nat,
+}
+
+impl RView {
+    /// the bytes still to be read
+    pub open spec fn bytes(self) -> Seq<u8> { self.root.subrange(self.start as int, (self.start + self.len) as int) }
+    /// i-th unread byte
+    pub open spec fn at(self, i: int) -> u8 { self.root[self.start + i] }
+    pub open spec fn end(self) -> nat { self.start + self.len }
+    /// unsigned n-byte field at offset p from the read position
+    pub open spec fn u(self, p: int, n: int) -> nat { uint_at(self.root, self.start + p, n, self.be) }
+    /// signed n-byte field at offset p
+    pub open spec fn s(self, p: int, n: int) -> int { sext(self.u(p, n), (8 * n) as nat) }
+    /// LEB128 at offset p (never looks past the end of the window)
+    pub open spec fn leb_len(self, p: int) -> nat { leb_len_in(self.root, self.start + p, self.end() as int) }
+    pub open spec fn leb_ok(self, p: int) -> bool { p + self.leb_len(p) <= self.len }
+    pub open spec fn uleb(self, p: int) -> nat { uleb_in(self.root, self.start + p, self.end() as int) }
+    pub open spec fn sleb(self, p: int) -> int { sleb_in(self.root, self.start + p, self.end() as int) }
+}
+
+/// value of the n-byte unsigned integer stored at root[pos .. pos+n)
+pub open spec fn uint_le_at(root: Seq<u8>, pos: int, n: int) -> nat
+    decreases n
+{
+    if n <= 0 { 0 } else { root[pos] as nat + 256 * uint_le_at(root, pos + 1, n - 1) }
+}
+pub open spec fn uint_be_at(root: Seq<u8>, pos: int, n: int) -> nat
+    decreases n
+{
+    if n <= 0 { 0 } else { uint_be_at(root, pos, n - 1) * 256 + root[pos + n - 1] as nat }
+}
+pub open spec fn uint_at(root: Seq<u8>, pos: int, n: int, be: bool) -> nat {
+    if be { uint_be_at(root, pos, n) } else { uint_le_at(root, pos, n) }
+}
+
+pub open spec fn leb_len_in(root: Seq<u8>, pos: int, end: int) -> nat
+    decreases end - pos
+{
+    if pos >= end { 1 } else if root[pos] & 0x80 == 0 { 1 } else { 1 + leb_len_in(root, pos + 1, end) }
+}
+pub open spec fn uleb_in(root: Seq<u8>, pos: int, end: int) -> nat
+    decreases end - pos
+{
+    if pos >= end { 0 } else if root[pos] & 0x80 == 0 { (root[pos] & 0x7f) as nat } else { (root[pos] & 0x7f) as nat + 128 * uleb_in(root, pos + 1, end) }
+}
+pub open spec fn sleb_in(root: Seq<u8>, pos: int, end: int) -> int
+    decreases end - pos
+{
+    if pos >= end { 0 }
+    else if root[pos] & 0x80 == 0 { if root[pos] & 0x40 != 0 { (root[pos] & 0x7f) as int - 128 } else { (root[pos] & 0x7f) as int } }
+    else { (root[pos] & 0x7f) as int + 128 * sleb_in(root, pos + 1, end) }
 }
 
 /// `new` is `old` advanced by exactly n bytes
 pub open spec fn adv(old: RView, new: RView, n: nat) -> bool {
-    old.bytes.len() >= n && new.bytes == old.bytes.skip(n as int) && new.be == old.be && new.tracks == old.tracks
-    && new.sec == old.sec && (old.tracks ==> new.pos == old.pos + n)
+    n <= old.len && new.root == old.root && new.be == old.be && new.start == old.start + n && new.len == old.len - n
 }
 /// `new` is exactly `old`
 pub open spec fn unch(old: RView, new: RView) -> bool {
-    new.bytes == old.bytes && new.be == old.be && new.tracks == old.tracks && new.sec == old.sec && (old.tracks ==> new.pos == old.pos)
+    new == old
 }
 /// `new` is `old` advanced by some number of bytes (the universal frame of every parser)
 pub open spec fn within(old: RView, new: RView) -> bool {
-    new.bytes.len() <= old.bytes.len() && adv(old, new, (old.bytes.len() - new.bytes.len()) as nat)
+    new.root == old.root && new.be == old.be && old.start <= new.start && new.start + new.len == old.start + old.len
 }
 /// `r` is the window [off, off+n) of `parent`
 pub open spec fn window(parent: RView, r: RView, off: nat, n: nat) -> bool {
-    off + n <= parent.bytes.len() && r.bytes == parent.bytes.subrange(off as int, (off + n) as int) && r.be == parent.be
-    && r.tracks == parent.tracks && r.sec == parent.sec && (parent.tracks ==> r.pos == parent.pos + off)
+    off + n <= parent.len && r.root == parent.root && r.be == parent.be && r.start == parent.start + off && r.len == n
 }
 /// `new` is a prefix of / truncation of `old`
 pub open spec fn trunc(old: RView, new: RView, n: nat) -> bool {
     window(old, new, 0, n)
 }
-pub proof fn lemma_adv_within(a: RView, b: RView, n: nat)
-    requires adv(a, b, n)
-    ensures within(a, b), b.bytes.len() + n == a.bytes.len()
-{}
-pub proof fn lemma_within_refl(a: RView)
-    ensures within(a, a), unch(a, a)
-{
-    broadcast use group_seq_views;
-}
-pub proof fn lemma_within_trans(a: RView, b: RView, c: RView)
-    requires within(a, b), within(b, c)
-    ensures within(a, c)
-{
-    broadcast use group_seq_views;
-}
-pub proof fn lemma_adv_trans(a: RView, b: RView, c: RView, n1: nat, n2: nat)
-    requires adv(a, b, n1), adv(b, c, n2)
-    ensures adv(a, c, n1 + n2)
-{
-    broadcast use group_seq_views;
+/// `r` lies inside `parent`
+pub open spec fn inside(parent: RView, r: RView) -> bool {
+    r.root == parent.root && r.be == parent.be && parent.start <= r.start && r.start + r.len <= parent.start + parent.len
 }
